@@ -351,6 +351,10 @@ def type_routine(text, name):
         if s == "refcount = refcount - 1":
             ins.append(["decrc"])
             continue
+        # a loop over the elements of a fixed-size array member: every element is treated alike and owns storage of its
+        # own, so one representative element (the path without the index, see _path) stands for all of them
+        if re.match(r"drtf_\w+ = \d+$", s) or re.match(r"do drtf_i\w+ = 1, drtf_\w+$", s) or s in ("end do", "enddo"):
+            continue
         warnings.append("%s: %s" % (name, s))
     if stack:
         warnings.append("%s: unbalanced if" % name)
